@@ -12,7 +12,7 @@ RULE = ('1-2 real ActiveObjects subscribe to a signal with queue_type fifo, lifo
         'publish while the scheduler starves the consumer thread, so that events are pending when a delivery thread delivers '
         '(the stalled consumer is the injected fault). Oracle on the linearised history of the object\'s pending-event deque: a '
         'delivery made for a lifo subscription puts the event at index 0 (as post_lifo would), one made for a fifo subscription '
-        'puts it last (as post_fifo would), and every publication is delivered exactly once per subscribed kind. Non-trivial = a delivery made while >= 1 event was pending; distinct = distinct '
+        'puts it last (as post_fifo would), and every publication is delivered exactly once per subscribed kind; in part of the runs a plain deque (a monitor) is subscribed to the same signal before or after the objects. Non-trivial = a delivery made while >= 1 event was pending; distinct = distinct '
         '(subscription kind, number pending at delivery, delivering thread) tuples.')
 ASSUMPTIONS = ['anchor: docs/source/recipes.rst ("subscribes in a lifo way -> posted with post_lifo") and glossary.rst']
 PROBES = ['delivery_with_pending_events']
@@ -35,6 +35,9 @@ def generate(seed, stratum, tier):
     kinds[i] = k
     for kk in (['lifo', 'fifo'] if k == 'both' else [k]):
       c0.append(['subscribe', i, 'SD', kk])
+  if stratum == 'pending' and rng.random() < 0.25:
+    # a monitor: a plain deque subscribed to the same signal on the same fabric, before or after the objects
+    c0.insert(rng.choice([nobj, len(c0)]), ['tap', 0, 'SD', rng.choice(['lifo', 'lifo', 'fifo'])])
   c0.append(['await_idle'])
   burst = []
   for _ in range(rng.randrange(1, 5)):
@@ -65,7 +68,7 @@ def shrink_candidates(sc):
   cl = sc['clients']
   for i, s in enumerate(cl):
     for j in range(len(s) - 1, -1, -1):
-      if s[j][0] in ('start', 'subscribe', 'await_idle'):
+      if s[j][0] in ('start', 'subscribe', 'await_idle', 'tap'):
         continue
       yield dict(sc, clients=cl[:i] + [s[:j] + s[j + 1:]] + cl[i + 1:])
   if len(cl) > 1:
